@@ -2,7 +2,7 @@
    sizes only, never an offset; the relocated holder is still a collision-free layout, so the copy theorems apply to it:
    what is copied / installed is exactly the relocated bytes. *)
 From Coq Require Import ZArith List Bool Lia.
-From Verif Require Import Codec.OffsetModel Reloc.RelocModel Reloc.RelocProofs Sections.SectionModel Sections.SectionProofs Sections.CopyProofs Sections.ChunkProofs
+From Verif Require Import Codec.OffsetModel Reloc.RelocModel Reloc.RelocProofs Sections.SectionModel Sections.SectionProofs Sections.CopyProofs Sections.ChunkProofs Sections.ShrinkProofs Sections.StableProofs Sections.CoverProofs Sections.SettleProofs
   Sections.ChunkModel Sections.JitReloc.
 Import ListNotations.
 Local Open Scope Z_scope.
@@ -70,18 +70,19 @@ Proof.
   rewrite app_length, le_bytes_length. fold (table_bytes t). lia.
 Qed.
 
-Lemma patch_site_length data e o : 2 <= e_off e + e_lead e -> 0 <= vsize (e_fmt e) ->
+Lemma patch_site_length data e o : 0 <= e_off e + e_lead e -> 0 <= vsize (e_fmt e) ->
   e_off e + e_lead e + vsize (e_fmt e) <= Z.of_nat (length data) ->
   length (patch_site data e o) = length data.
 Proof.
   intros H2 Hv Hb. unfold patch_site.
   assert (L1 : length (write_at data (e_off e + e_lead e) (le_bytes (Z.to_nat (vsize (e_fmt e))) (o_word o))) = length data).
   { apply write_at_length; [lia|]. rewrite le_bytes_length. lia. }
-  destruct (o_rewrite o) as [[b0 b1]|]; [|assumption]. rewrite write_at_length; [assumption|lia|]. cbn [length]. lia.
+  destruct (o_rewrite o) as [[b0 b1]|]; [|assumption]. destruct (Z.leb_spec 2 (e_off e + e_lead e)); [|assumption].
+  rewrite write_at_length; [assumption|lia|]. cbn [length]. lia.
 Qed.
 
-(* a patch touches only the value word and the two bytes in front of it *)
-Lemma patch_site_outside data e o c : 2 <= e_off e + e_lead e -> 0 <= vsize (e_fmt e) ->
+(* a patch touches only the value word and (address-table call) the two bytes in front of it *)
+Lemma patch_site_outside data e o c : 0 <= e_off e + e_lead e -> 0 <= vsize (e_fmt e) ->
   e_off e + e_lead e + vsize (e_fmt e) <= Z.of_nat (length data) -> 0 <= c ->
   ~ (e_off e + e_lead e - 2 <= c < e_off e + e_lead e + vsize (e_fmt e)) ->
   cell (patch_site data e o) c = cell data c.
@@ -92,14 +93,20 @@ Proof.
   assert (C1 : cell d1 c = cell data c).
   { unfold d1. rewrite write_at_cell; [|lia|rewrite le_bytes_length; lia|assumption]. rewrite le_bytes_length.
     destruct (Z.leb_spec (e_off e + e_lead e) c); destruct (Z.ltb_spec c (e_off e + e_lead e + Z.of_nat (Z.to_nat (vsize (e_fmt e))))); cbn [andb]; try reflexivity; lia. }
-  destruct (o_rewrite o) as [[b0 b1]|]; [|assumption].
+  destruct (o_rewrite o) as [[b0 b1]|]; [|assumption]. destruct (Z.leb_spec 2 (e_off e + e_lead e)); [|assumption].
   rewrite write_at_cell; [|lia|cbn [length]; lia|assumption]. cbn [length].
   destruct (Z.leb_spec (e_off e + e_lead e - 2) c); destruct (Z.ltb_spec c (e_off e + e_lead e - 2 + Z.of_nat 2)); cbn [andb]; try assumption; lia.
 Qed.
 
 (* ------------------------------------------------------------------ relocate_holder *)
+Lemma Forall2_map_in {A} (R : A -> A -> Prop) (G : A -> A) l : (forall x, In x l -> R x (G x)) -> Forall2 R l (map G l).
+Proof.
+  induction l as [|a t IH]; intros H; cbn [map]; constructor; [apply H; left; reflexivity|apply IH; intros x Hx; apply H; right; assumption].
+Qed.
+
+
 Lemma patch_all_length es : forall outs data,
-  (forall e, In e es -> 2 <= e_off e + e_lead e /\ 0 <= vsize (e_fmt e) /\ e_off e + e_lead e + vsize (e_fmt e) <= Z.of_nat (length data)) ->
+  (forall e, In e es -> 0 <= e_off e + e_lead e /\ 0 <= vsize (e_fmt e) /\ e_off e + e_lead e + vsize (e_fmt e) <= Z.of_nat (length data)) ->
   length (patch_all data es outs) = length data.
 Proof.
   induction es as [|e t IH]; intros outs data H; cbn [patch_all]; [reflexivity|]. destruct outs as [|o ot]; [reflexivity|].
@@ -126,7 +133,7 @@ Proof.
   intros Hnd Hpos Hd Hdis E. unfold relocate_holder in E.
   destruct (by_id h 0) as [text|] eqn:Et; [|discriminate].
   destruct (forallb (site_in_bounds text) calls) eqn:Eb; cbn [negb] in E; [|discriminate].
-  set (es := map (site_entry (soff text)) calls) in *.
+  set (es := map (site_entry h (soff text)) calls) in *.
   assert (Hsel : exists t atoff reserved last,
             (match tab with
              | Some t0 => match by_id h t0 with Some ts => (t0, soff ts, svsize ts, is_last h t0) | None => (-1, 0, 0, false) end
@@ -157,12 +164,14 @@ Proof.
       rewrite patch_all_length; [assumption|]. intros e He. unfold es in He. apply in_map_iff in He. destruct He as [c [<- Hc]].
       rewrite forallb_forall in Eb. specialize (Eb c Hc). unfold site_in_bounds in Eb.
       apply andb_true_iff in Eb. destruct Eb as [Eb E3]. apply andb_true_iff in Eb. destruct Eb as [E1 E2].
-      apply Z.leb_le in E1, E3. apply Z.ltb_lt in E2. unfold site_entry, CALL_LEN in *. cbn [e_off e_lead e_fmt vsize sfmt]. lia. }
+      apply Z.leb_le in E1, E3. apply Z.ltb_lt in E2. unfold site_entry, site_pos, site_len, CALL_LEN, ABS_LEN in *.
+      destruct c as [pos addr|pos tg lo]; cbn [e_off e_lead e_fmt vsize sfmt ufmt]; lia. }
   fold G.
   assert (HF : Forall2 shr_rel h (map G h) /\ Forall data_ok (map G h) /\ map soff (map G h) = map soff h /\ map sid (map G h) = map sid h).
-  { clear -Hel. induction h as [|a t' IH]; cbn [map]; [repeat split; constructor|].
-    destruct (Hel a (or_introl eq_refl)) as [D [S I]]. destruct IH as [I1 [I2 [I3 I4]]]; [intros s Hs; apply Hel; right; assumption|].
-    split; [constructor; assumption|]. split; [constructor; assumption|]. destruct S as [So _]. split; congruence. }
+  { split; [apply Forall2_map_in; intros s Hs; apply Hel; assumption|]. split; [|split].
+    - rewrite Forall_forall. intros x Hx. apply in_map_iff in Hx. destruct Hx as [s [<- Hs]]. apply Hel. assumption.
+    - rewrite map_map. apply map_ext_in. intros s Hs. destruct (Hel s Hs) as [_ [[So _] _]]. assumption.
+    - rewrite map_map. apply map_ext_in. intros s Hs. destruct (Hel s Hs) as [_ [_ I]]. assumption. }
   destruct HF as [F1 [F2 [F3 F4]]].
   split; [assumption|]. split; [eapply shr_rel_disjoint; eassumption|]. split; [assumption|]. split; [assumption|]. split; [assumption|].
   intros s s2 Hs Hs2 Eid N0 Nt. apply in_map_iff in Hs2. destruct Hs2 as [s' [<- Hs']].
@@ -216,13 +225,12 @@ Proof.
   inversion E; subst final img h2'; clear E.
   exists h1, red. split; [reflexivity|]. split; [assumption|]. split; [reflexivity|].
   destruct (Hid h1 eq_refl) as [Hnd Hpos].
-  destruct (flatten_copy_ready (jh st) h1 Hwf Hdl Ef) as [Hd Hdis].
+  destruct (final_copy_ready (jh st) h1 Hwf Hdl Ef) as [Hd Hdis].
   destruct (relocate_holder_ok h1 (jtab st) calls base h2 red Hnd Hpos Hd Hdis Er) as [D2 [Dis2 [Shr [Off _]]]].
   split; [assumption|].
   set (est := code_size h1) in *.
   assert (Hest : 0 <= est).
-  { destruct (flatten_flattened (jh st) h1 Hwf Ef) as [_ _ Hwf1 _ Hlne _ _ _]. unfold est, code_size.
-    rewrite (cs_walk_laid_ne h1 0 Hwf1 ltac:(lia) Hlne). apply lend_ne_ge; assumption. }
+  { destruct (flatten_final (jh st) h1 Hwf Ef) as [Hwf1 Hlne Hend _ _ _ _ _ _]. unfold est. rewrite <- Hend. apply lend_ne_ge; assumption. }
   set (mem := repeat fill (Z.to_nat est)).
   assert (Hlen : Z.of_nat (length mem) = est) by (unfold mem; rewrite repeat_length; lia).
   assert (Hnn : Forall nonneg h2).
@@ -232,7 +240,7 @@ Proof.
   assert (Hfit : existsb (too_small est) h2 = false).
   { destruct (existsb (too_small est) h2) eqn:Ex; [|reflexivity]. apply existsb_exists in Ex. destruct Ex as [s2 [Hs2 T]].
     destruct (Forall2_in_r _ _ _ _ Shr Hs2) as [s [Hs [So [Sr _]]]].
-    destruct (code_size_bounds_all (jh st) h1 Hwf Ef s Hs) as [H0 [H1 _]].
+    destruct (final_code_size_is_end (jh st) h1 Hwf Ef) as [_ [Hbnd _]]. destruct (Hbnd s Hs) as [H0 [H1 _]].
     rewrite Forall_forall in D2. destruct (D2 s2 Hs2) as [Hl [Ho Hv]].
     unfold too_small in T. apply orb_true_iff in T. unfold real_size in *. fold est in H1.
     destruct T as [T|T]; apply Z.ltb_lt in T; lia. }
@@ -247,4 +255,75 @@ Proof.
   - intros c0 Hs c Hc0 Hlt. rewrite ChunkProofs.flat_ctake, Hm'.
     rewrite Forall_forall in D2. destruct (D2 c0 Hs) as [Hl0 [Ho _]].
     rewrite cell_firstn by lia. apply (HZ c0 Hs). assumption.
+Qed.
+
+(* ------------------------------------------------------------------ totality of the relocated image *)
+Lemma Forall2_in_l {A} (R : A -> A -> Prop) l l' x : Forall2 R l l' -> In x l -> exists x', In x' l' /\ R x x'.
+Proof.
+  intros H. induction H; intros Hin; [contradiction|]. destruct Hin as [->|Hin]; [eexists; split; [left; reflexivity|assumption]|].
+  destruct (IHForall2 Hin) as [z [? ?]]. exists z. split; [right; assumption|assumption].
+Qed.
+
+Lemma is_last_spec h t : is_last h t = true -> exists l1 s, h = l1 ++ [s] /\ sid s = t.
+Proof.
+  unfold is_last. destruct (rev h) as [|l r] eqn:Er; [discriminate|]. intros E. apply Z.eqb_eq in E.
+  exists (rev r), l. split; [|assumption]. rewrite <- (rev_involutive h), Er. reflexivity.
+Qed.
+
+(* how relocation changes real sizes: nothing, except that a LAST address table gives its unused reservation back *)
+Lemma relocate_holder_sizes h tab calls base h2 red :
+  NoDup (map sid h) -> (forall s, In s h -> 0 <= sid s) ->
+  (forall s, In s h -> Some (sid s) = tab -> sbsize s <= svsize s) ->
+  relocate_holder h tab calls base = inl (h2, red) ->
+  0 <= red /\
+  Forall2 (fun s s2 => soff s2 = soff s /\
+             (real_size s2 = real_size s \/ (red <> 0 /\ (exists l1, h = l1 ++ [s]) /\ real_size s2 = real_size s - red))) h h2.
+Proof.
+  intros Hnd Hpos Hbuf E. unfold relocate_holder in E.
+  destruct (by_id h 0) as [text|] eqn:Et; [|discriminate].
+  destruct (forallb (site_in_bounds text) calls) eqn:Eb; cbn [negb] in E; [|discriminate].
+  set (es := map (site_entry h (soff text)) calls) in *.
+  assert (Hsel : exists t atoff reserved last,
+            (match tab with
+             | Some t0 => match by_id h t0 with Some ts => (t0, soff ts, svsize ts, is_last h t0) | None => (-1, 0, 0, false) end
+             | None => (-1, 0, 0, false) end) = (t, atoff, reserved, last) /\
+            ((t = -1 /\ last = false) \/ (tab = Some t /\ exists ts, by_id h t = Some ts /\ reserved = svsize ts /\ last = is_last h t))).
+  { destruct tab as [t0|]; [destruct (by_id h t0) as [ts|] eqn:Ets|]; do 4 eexists; (split; [reflexivity|]); eauto 10. }
+  destruct Hsel as [t [atoff [reserved [last [Esel Hres]]]]]. rewrite Esel in E.
+  destruct (relocate base REG_SIZE atoff reserved last es) as [r|x] eqn:Er; [|discriminate].
+  destruct (Z.ltb_spec reserved (rr_table_size r)) as [|Hfit]; [discriminate|]. inversion E; subst h2 red; clear E.
+  destruct (relocate_table _ _ _ _ _ _ _ Er) as [_ [Esize [Ered _]]]. unfold Labels.LabelsModel.zlen, REG_SIZE in Esize.
+  assert (Hsize0 : 0 <= rr_table_size r) by lia.
+  split; [rewrite Ered; destruct last; lia|].
+  apply Forall2_map_in. intros s Hs. cbv beta.
+  destruct (Z.eqb_spec (sid s) t) as [Est|Nst].
+  - destruct Hres as [[Tm _]|[Etab [ts [Bts [Rts Lts]]]]]; [specialize (Hpos s Hs); lia|].
+    assert (ts = s). { rewrite <- Est in Bts. rewrite (by_id_unique h s Hnd Hs) in Bts. congruence. } subst ts.
+    assert (Hbs : sbsize s <= svsize s) by (apply Hbuf; [assumption|rewrite Etab, Est; reflexivity]).
+    split; [reflexivity|]. rewrite Ered. unfold real_size, set_sizes. cbn [svsize sbsize]. destruct last eqn:El.
+    + destruct (Z.eq_dec (reserved - rr_table_size r) 0) as [Z0|Zn]; [left; lia|right].
+      split; [assumption|]. split; [|lia].
+      symmetry in Lts. destruct (is_last_spec h t Lts) as [l1 [s' [Eh Es']]]. exists l1.
+      assert (Hin' : In s' h) by (rewrite Eh; apply in_or_app; right; left; reflexivity).
+      assert (s' = s).
+      { pose proof (by_id_unique h s' Hnd Hin') as B1. pose proof (by_id_unique h s Hnd Hs) as B2. rewrite Es', <- Est in B1. congruence. }
+      subst s'. assumption.
+    + left. lia.
+  - destruct (Z.eqb_spec (sid s) 0); (split; [reflexivity|left; reflexivity]).
+Qed.
+
+(* every cell below the final size (estimate - reduction) lies in the real-size range of a section of the relocated holder:
+   together with relocated_copy_exact / jit_add_reloc_image no stale byte survives inside the installed image *)
+Theorem relocated_image_total h0 h tab calls base h2 red :
+  wf_holder h0 -> flatten h0 = (EOk, h) -> NoDup (map sid h) -> (forall s, In s h -> 0 <= sid s) ->
+  (forall s, In s h -> Some (sid s) = tab -> sbsize s <= svsize s) ->
+  relocate_holder h tab calls base = inl (h2, red) ->
+  forall c, 0 <= c < code_size h - red -> exists s2, In s2 h2 /\ soff s2 <= c < soff s2 + real_size s2.
+Proof.
+  intros Hwf Ef Hnd Hpos Hbuf Er c Hc.
+  destruct (relocate_holder_sizes h tab calls base h2 red Hnd Hpos Hbuf Er) as [Hr0 Hsz].
+  destruct (final_image_total h0 h (code_size h) Hwf Ef ltac:(lia) c ltac:(lia)) as [s [Hin [Hr Ew]]]. rewrite Ew in Hr.
+  destruct (Forall2_in_l _ _ _ _ Hsz Hin) as [s2 [Hin2 [Ho Hrs]]]. exists s2. split; [assumption|]. rewrite Ho.
+  destruct Hrs as [->|[_ [[l1 El] ->]]]; [assumption|].
+  destruct (final_code_size_is_end h0 h Hwf Ef) as [Hend _]. rewrite (Hend l1 s El) in Hc. lia.
 Qed.
